@@ -5,6 +5,7 @@ func init() {
 		ID:    "C13",
 		Title: "Errors name the line (and file) of the offending construct",
 		Rules: []string{
+			"R-ERRNODE: the node every evaluator error is built from, followed back through parameters and interface conversions, is the construct under evaluation and not one of its operands (InfixExp.Left ...)",
 			"R-EVALORDER: no composite literal of the parser reads the current/next token in one element and calls a token-consuming parser method in another (unspecified evaluation order)",
 			"R-LEXINPUT: lexer.New stores its argument as the input unchanged and every caller hands it the text it was given (a parameter handed through, or a file's content as read)",
 			"R-PATHAPI: a file's content is read and passed on unmodified (no trimming: reported lines are lines of the file)",
@@ -16,6 +17,7 @@ func init() {
 		Assumptions: trustedBase,
 		Run: func(m *Model, s *Sink) {
 			m.RunEvalOrder(s, "R-EVALORDER")
+			m.RunErrNode(s, "R-ERRNODE")
 			m.RunLexInput(s, "R-LEXINPUT")
 			m.RunPathAPI(s, "R-PATHAPI") // the text of a template file reaches the lexer unmodified: lines are counted in the file's own text
 			m.RunErrLine(s, "R-ERRLINE")
